@@ -22,7 +22,7 @@ def extract_glom_fn(core, find_def, exc_names, P):
     f = {'defCond': '?', 'defIf': '?', 'defElse': '?', 'skipCond': '?', 'skipIf': '?', 'skipElse': '?',
          'debugDefault': '?', 'innerCatch': ['?'], 'innerBody': ['?'], 'outerCatch': ['?'],
          'outerSteps': ['?'], 'copyArgsCheck': False, 'copyFallback': [], 'errTest': '?',
-         'tail': ['?'], 'bodyCall': '?'}
+         'tail': ['?'], 'bodyCall': '?', 'attrGuarded': False}
     fn = find_def(core, 'glom')
     if fn is None:
         P.add('function glom not found')
@@ -127,16 +127,29 @@ def extract_glom_fn(core, find_def, exc_names, P):
             steps.append('?' + U(st)[:60])
             P.add('glom(): unrecognised statement in the outer handler: ' + U(st)[:60])
     f['outerSteps'] = steps
+
+    def guarded(pred):
+        """every call matching `pred` in the outer handler stands inside the body of a try that catches Exception"""
+        protected = set()
+        for t in ast.walk(oh):
+            if isinstance(t, ast.Try) and any(
+                    h.type is None or {'Exception', 'BaseException'} & set(exc_names(h.type)) for h in t.handlers):
+                for st in t.body:
+                    protected.update(id(n) for n in ast.walk(st))
+        calls = [n for n in ast.walk(oh) if isinstance(n, ast.Call) and pred(n)]
+        return bool(calls) and all(id(n) in protected for n in calls)
+    f['attrGuarded'] = (guarded(lambda c: U(c.func).endswith('._set_wrapped'))
+                        and guarded(lambda c: U(c.func).endswith('._finalize')))
     return f
 
 
 def extract_wrap(core, find_def, exc_names, P):
-    w = {'bases': '?', 'ctorCall': '?', 'argsCheck': False, 'fallback': [], 'typeOutsideTry': True}
+    w = {'bases': '?', 'ctorCall': '?', 'argsCheck': False, 'fallback': [], 'typeInTry': False}
     fn = find_def(core, 'wrap', cls='GlomError')
     if fn is None:
         P.add('GlomError.wrap not found')
         return w
-    for st in fn.body:
+    for st in ast.walk(fn):
         if isinstance(st, ast.Assign) and U(st.targets[0]) == 'bases':
             b = U(st.value)
             w['bases'] = {'(GlomError,) if issubclass(GlomError, exc_type) else (exc_type, GlomError)':
@@ -149,6 +162,18 @@ def extract_wrap(core, find_def, exc_names, P):
         return w
     t = tries[0]
     body = list(t.body)
+
+    def is_type_call(st):
+        return (isinstance(st, ast.Assign) and isinstance(st.value, ast.Call) and U(st.value.func) == 'type'
+                and len(st.value.args) == 3)
+    outside = [st for st in fn.body if is_type_call(st)]
+    inside = [st for st in body if is_type_call(st)]
+    if len(outside) + len(inside) != 1:
+        P.add('GlomError.wrap: expected exactly one `… = type(name, bases, ns)` statement')
+    w['typeInTry'] = bool(inside) and not outside
+    # statements that only prepare the class may precede the construction inside the try
+    while body and isinstance(body[0], ast.Assign) and U(body[0].targets[0]) in ('bases', 'exc_wrapper_type', 'exc_type'):
+        body = body[1:]
     if not body or not (isinstance(body[0], ast.Assign) and isinstance(body[0].value, ast.Call)
                         and U(body[0].targets[0]) == 'wrapper'):
         P.add('GlomError.wrap: `wrapper = …(*exc.args)` not found')
@@ -223,6 +248,70 @@ def extract_coalesce(core, find_def, exc_names, P):
     else:
         P.add('Coalesce.glomit: the for-else does not raise exactly one exception')
     return out
+
+
+def extract_list_iter(core, find_def, exc_names, P):
+    """_handle_list: `try: iterator = iterate(target)` / `except <classes> as e: raise <Cls>(…)`"""
+    out = {'catch': ['?'], 'raises': '?', 'ok': False}
+    fn = find_def(core, '_handle_list')
+    if fn is None:
+        P.add('_handle_list not found')
+        return out
+    tries = [st for st in fn.body if isinstance(st, ast.Try)]
+    if len(tries) != 1 or len(tries[0].handlers) != 1 or tries[0].orelse or tries[0].finalbody:
+        P.add('_handle_list: expected one try with one handler')
+        return out
+    t = tries[0]
+    if [U(x) for x in t.body] != ['iterator = iterate(target)']:
+        P.add('_handle_list: try body is not `iterator = iterate(target)`')
+        return out
+    h = t.handlers[0]
+    out['catch'] = exc_names(h.type)
+    if len(h.body) == 1 and isinstance(h.body[0], ast.Raise) and isinstance(h.body[0].exc, ast.Call) \
+            and isinstance(h.body[0].exc.func, ast.Name):
+        out['raises'] = h.body[0].exc.func.id
+    else:
+        P.add('_handle_list: the handler does not raise exactly one new exception')
+        return out
+    # the loop over the iterator has no try of its own: an exception of `next()` / of the subspec passes
+    loops = [st for st in fn.body if isinstance(st, ast.For)]
+    if len(loops) != 1 or any(isinstance(n, ast.Try) for n in ast.walk(loops[0])):
+        P.add('_handle_list: the for loop is not recognised (a try inside it?)')
+        return out
+    out['ok'] = True
+    return out
+
+
+def extract_entry_points(core, find_def, P):
+    """Spec.glom and Glommer.glom hand every keyword on to glom()"""
+    ok = True
+    sg = find_def(core, 'glom', cls='Spec')
+    gg = find_def(core, 'glom', cls='Glommer')
+    if sg is None or gg is None:
+        P.add('Spec.glom / Glommer.glom not found')
+        return False
+    rets = [n for n in ast.walk(sg) if isinstance(n, ast.Return)]
+    if not (len(rets) == 1 and U(rets[0].value) == 'glom_(target, self.spec, **kw)'):
+        P.add('Spec.glom: does not end in `return glom_(target, self.spec, **kw)`')
+        ok = False
+    if any(isinstance(n, (ast.Try, ast.Raise)) for n in ast.walk(sg)):
+        P.add('Spec.glom: try / raise not modelled')
+        ok = False
+    for n in ast.walk(sg):      # nothing but 'scope' may be read from / removed from the keywords
+        if isinstance(n, ast.Call) and U(n.func) in ('kw.pop', 'kw.get', 'kw.setdefault') and not (
+                n.args and isinstance(n.args[0], ast.Constant) and n.args[0].value == 'scope'):
+            P.add('Spec.glom: touches a keyword other than scope: ' + U(n))
+            ok = False
+        if isinstance(n, (ast.Assign, ast.Delete)):
+            for tg in (n.targets if hasattr(n, 'targets') else []):
+                if isinstance(tg, ast.Subscript) and U(tg.value) == 'kw' and U(tg.slice) != "'scope'":
+                    P.add('Spec.glom: assigns a keyword other than scope: ' + U(n))
+                    ok = False
+    body = [st for st in gg.body if not (isinstance(st, ast.Expr) and isinstance(st.value, ast.Constant))]
+    if [U(x) for x in body] != ['return glom(target, spec, scope=self.scope, **kwargs)']:
+        P.add('Glommer.glom: body is not `return glom(target, spec, scope=self.scope, **kwargs)`')
+        ok = False
+    return ok
 
 
 def glom_exc_classes():
@@ -404,6 +493,8 @@ def extract(ctx):
     w = extract_wrap(core, find_def, exc_names, P)
     fr = extract_frame(core, find_def, exc_names, P)
     co = extract_coalesce(core, find_def, exc_names, P)
+    li = extract_list_iter(core, find_def, exc_names, P)
+    entry_ok = extract_entry_points(core, find_def, P)
     classes = glom_exc_classes()
     overrides = extract_copy_overrides(trees, P)
     shapes = ctor_shapes(trees, classes, P)
@@ -425,6 +516,9 @@ def extract(ctx):
         ('glomErrTest', S, g['errTest']),
         ('wrapBases', S, w['bases']), ('wrapCtorCall', S, w['ctorCall']),
         ('wrapArgsCheck', 'Bool', w['argsCheck']), ('wrapFallback', LS, w['fallback']),
+        ('wrapTypeInTry', 'Bool', w['typeInTry']), ('glomAttrGuarded', 'Bool', g['attrGuarded']),
+        ('listIterCatch', LS, li['catch']), ('listIterRaises', S, li['raises']), ('listIterShapeOk', 'Bool', li['ok']),
+        ('entryPointsOk', 'Bool', entry_ok),
         ('frameCatch', LS, fr['catch']), ('frameReraises', 'Bool', fr['reraises']),
         ('coalesceCatch', LS, co['catch']), ('coalesceSkipDefault', S, co['skipDefault']),
         ('coalesceContinues', 'Bool', co['continues']), ('coalesceElseRaises', S, co['elseRaises']),
